@@ -61,4 +61,58 @@ macro "init_cases " A:ident p:ident " on " defs:Lean.Parser.Tactic.simpLemma,* "
                simp only [$defs,*, hc0, hc2, hc3, h1, h4, h5, h6, h7, if_true, if_false]
                split_ifs <;> ($tac)))
 
+/-- the documented admissible domain of the Sedov constructor (sedov.py: 'geometry': '1=planar,
+2=cylindrical, 3=spherical'; "gamma must be greater than 1"; "density must be greater than 0";
+"eblast must be greater than 0"; "omega must be between 0 and geometry", code `omega < 0 or
+omega >= geometry`) -/
+structure Documented (p : SedovInit.P) : Prop where
+  geo : p.geometry = 1 ∨ p.geometry = 2 ∨ p.geometry = 3
+  gamma : 1 < p.gamma
+  rho0 : 0 < p.rho0
+  eblast : 0 < p.eblast
+  omega0 : 0 ≤ p.omega
+  omegak : p.omega < p.geometry
+
+open Classical in
+/-- the six checks in the order the code makes them: a failed check raises ValueError -/
+theorem sedov_not_accepted_raises (p : SedovInit.P) (hA : ¬ Accepted p) :
+    SedovInit.outcome p = .raise "ValueError" := by
+  have key : ∀ hg : p.geometry = 1 ∨ p.geometry = 2 ∨ p.geometry = 3,
+      SedovInit.c1 p ∨ SedovInit.c4 p ∨ SedovInit.c5 p ∨ SedovInit.c6 p ∨ SedovInit.c7 p := by
+    intro hg
+    by_contra hne
+    simp only [not_or] at hne
+    exact hA ⟨hg, hne.1, hne.2.1, hne.2.2.1, hne.2.2.2.1, hne.2.2.2.2⟩
+  have checks : ∀ {X Y : EPV.Out}, (SedovInit.c1 p ∨ SedovInit.c4 p ∨ SedovInit.c5 p ∨ SedovInit.c6 p ∨ SedovInit.c7 p) →
+      (if SedovInit.c1 p then EPV.Out.raise "ValueError" else if SedovInit.c4 p then EPV.Out.raise "ValueError"
+        else if SedovInit.c5 p then EPV.Out.raise "ValueError" else if SedovInit.c6 p then EPV.Out.raise "ValueError"
+        else if SedovInit.c7 p then EPV.Out.raise "ValueError" else X) = EPV.Out.raise "ValueError" := by
+    intro X Y h
+    split_ifs <;> first | rfl | (exfalso; tauto)
+  by_cases hc0 : SedovInit.c0 p
+  · simp only [SedovInit.outcome, hc0, if_true]
+    exact checks (Y := .ok) (key (Or.inl hc0))
+  · by_cases hc2 : SedovInit.c2 p
+    · simp only [SedovInit.outcome, hc0, hc2, if_true, if_false]
+      exact checks (Y := .ok) (key (Or.inr (Or.inl hc2)))
+    · by_cases hc3 : SedovInit.c3 p
+      · simp only [SedovInit.outcome, hc0, hc2, hc3, if_true, if_false]
+        exact checks (Y := .ok) (key (Or.inr (Or.inr hc3)))
+      · simp only [SedovInit.outcome, hc0, hc2, hc3, if_false]
+
+/-- the six checks passed: the constructor returns normally (the three `raise AttributeError`
+leaves of the traced tree — solution_type never assigned — are unreachable for real numbers) -/
+theorem sedov_accepted_ok (p : SedovInit.P) (A : Accepted p) : SedovInit.outcome p = .ok := by
+  init_cases A p on SedovInit.outcome with
+    first
+    | rfl
+    | (exfalso
+       have h8 : ¬ SedovInit.c8 p := by assumption
+       simp only [epv_cond, not_le, not_lt] at *
+       rcases lt_abs.mp h8 with hh | hh <;> linarith)
+
+theorem Documented.accepted {p : SedovInit.P} (D : Documented p) : Accepted p :=
+  ⟨D.geo, not_lt.mpr D.gamma.le, not_lt.mpr D.rho0.le, not_lt.mpr D.eblast.le, not_lt.mpr D.omega0,
+    not_le.mpr D.omegak⟩
+
 end EPV.Sedov
